@@ -11,6 +11,7 @@ CONSTANTS
   FlagsInModel = FALSE
   Responder = "honest"
   ClientDesign = "fixed"
+  SentSpace = "configured"
 INIT Init
 NEXT Next
 INVARIANTS TypeOK Agreement BestCommon Selects RefusalReported NoFallback MismatchAscending QueryNeverSelects EchoData FlagsIrrelevant ClientSafe
